@@ -150,6 +150,46 @@ def ims_case(t0, value, kind):
     return Case("ims.decide", xl(xn(t0), xb(value)), None, {"kind": kind, "ood": near})
 
 
+def path_case(data, kind, sched=(), profile="dev", no_default=False):
+    return Case("c02.path", xl(xbool(profile == "dev"), xb(data), xlist([xn(s) for s in sched]), xbool(no_default)), None, {"kind": kind}, profile)
+
+
+def path_head(rng):
+    """One request for the compared request path (component c02.path): every stage's deciding input is in the menu."""
+    m = rng.choice([b"GET", b"GET", b"GET", b"HEAD", b"HEAD", b"POST", b"PUT", b"OPTIONS", b"OPTIONS", b"OPTIONS", b"DELETE", b"TRACE", b"get", b"G@T"])
+    t = rng.choice([b"/", b"/a", b"/a/", b"/a.", b"/a?x=1&y", b"/./a", b"/../x", b"//a", b"/a/../b", b"/%2e%2e/x", b"/%2E/", b"/a%", b"/%ff", b"/a%2fb", b"*",
+                    b"/a?", b"/?", b"/a b", b"/./cors_fail", b"/./cors_options", b"a", b"http://x/a", b"/" + b"a" * 200])
+    v = rng.choice([b"HTTP/1.1"] * 6 + [b"HTTP/1.0", b"HTTP/1.0", b"HTTP/0.9", b"HTTP/2", b"HTTP/1.2"])
+    hs = []
+    if m == b"OPTIONS" and rng.random() < 0.6:
+        hs += [(b"Origin", rng.choice([b"http://localhost", b"http://localhost", b"http://b.example", b"http://evil"])),
+               (b"Access-Control-Request-Method", rng.choice([b"PUT", b"GET", b""]))]
+    if rng.random() < 0.7:
+        hs.append((b"Host", rng.choice([b"localhost", b"localhost", b"b.example", b"alias.example", b"unknown", b"LOCALHOST", b"localhost:8080", b"", b"a b"])))
+    if rng.random() < 0.4:
+        hs.append((b"Range", rng.choice([b"bytes=0-0", b"bytes=5-2", b"bytes=2-5", b"bytes=0-%d" % U64, b"bytes=20-30", b"bytes=-5", b"bytes=2-5,7-9", b"bytes=9-9",
+                                         b"bytes=10-10", b"bytes=3-100", b"bytes=2-", b"bytes= 2-5", b"bytes=%d-%d" % (U64, U64), b"bytes=1-0", b"chars=1-2", b"\xff"])))
+    if rng.random() < 0.4:
+        hs.append((b"Origin", rng.choice([b"http://localhost", b"http://localhost", b"http://b.example", b"https://localhost", b"null", b"http://evil", b"\xff",
+                                          b"http://localhost:8080", b"http://unknown", b"http://LOCALHOST", b"", b"http://"])))
+    if rng.random() < 0.3:
+        hs.append((b"Access-Control-Request-Method", rng.choice([b"PUT", b"", b"\xff"])))
+    if rng.random() < 0.2:
+        hs.append((b"Accept-Encoding", rng.choice([b"gzip", b"br", b"identity", b"gzip, br"])))
+    if rng.random() < 0.2:
+        hs.append((b"If-Modified-Since", rng.choice([b"Fri, 31 Dec 9999 23:59:59 GMT", b"x"])))
+    body = b""
+    if rng.random() < 0.3:
+        n = rng.choice([b"0", b"3", b"5", b"x", b"-1", b"70000", b"%d" % U64])
+        hs.append((b"Content-Length", n))
+        body = rng.choice([b"", b"abc", b"abcde", b"abcdefgh"])
+    rng.shuffle(hs)
+    out = m + b" " + t + b" " + v + b"\r\n"
+    for n, val in hs:
+        out += n + rng.choice([b": ", b": ", b":"]) + val + b"\r\n"
+    return out + b"\r\n" + body
+
+
 def words(alpha, n, symbols=None):
     syms = symbols if symbols is not None else [bytes([c]) for c in alpha]
     for k in range(n + 1):
@@ -306,6 +346,9 @@ def generate(rng, tier):
     cases.append(conn_case(b"GET /e.html HTTP/1.1\r\n\r\nGET /n.html HTTP/1.1\r\n\r\nGET /x.html HTTP/1.1\r\n\r\n", "corpus"))
     cases += range_cases(b"bytes=0-18446744073709551615", 10, "corpus")
     cases += [hdr_case(b"A: \n\n", "corpus"), hdr_case(b"A:\n\n", "corpus"), head_case(b"GET / HTTP/1.1\r\nA: \n\r\n", "corpus")]
+    # fe1115a (an empty last template), fa13a8b (a quote that is not closed)
+    cases += [file_case(b"!> tmpl T\n$[a]", b"$[a]\n", "corpus"), file_case(b"!> tmpl T\n<p>$[b]</p>", b"$[a]\nA\n$[b]\n", "corpus"),
+              Case("explore.urls", xb(b"<img src=\"/abc"), None, {"kind": "corpus"}), Case("explore.urls", xb(b"<link href='/x.css"), None, {"kind": "corpus"})]
 
     # ---- heads ------------------------------------------------------------------------------------------------------
     cases += exhaustive_heads(tier)
@@ -535,7 +578,7 @@ def generate(rng, tier):
         line = line if rng.random() < 0.7 else mutate(rng, line, ALPHA_P)
         cases.append(file_case(line + rng.choice(P_BODY), rng.choice(T_FILES), "file-random", ext=rng.choice([0, 0, 1]), one_request=quick))
     # template files: bounded-exhaustive over the structural tokens of the template syntax
-    for w in words(b"", 3 if quick else 5, [b"$[", b"a", b"]", b"\n", b"\r\n", b"\\", b" "]):
+    for w in words(b"", 4 if quick else 6, [b"$[", b"a", b"]", b"\n", b"\r\n", b"\\", b" "]):
         cases.append(file_case(b"!> tmpl T\n$[a]|$[b]", w, "file-template", one_request=True))
     for b_ in P_BODY:
         cases.append(file_case(b"!> tmpl T\n" + b_, b"$[a]\nA\n", "file-template"))
@@ -550,6 +593,20 @@ def generate(rng, tier):
     for _ in range(500 if quick else 30000):
         m = mutate(rng, html, b"<>\"'` =/\\\xc3\xa9\xff")
         cases.append(Case("explore.urls", xb(m[:rng.randrange(0, len(m) + 1)] if rng.random() < 0.5 else m), None, {"kind": "urls-random"}))
+    # ONE request against a minimal collection (with / without a default host): the class of the answer — closed, 409, 400, 403, 204,
+    # 416, reply with status / length / content-range / body — is COMPARED with the model's request_path (the order of the stages)
+    for s in SPECIAL_HEADS:
+        if len(s) <= 20000:
+            cases.append(path_case(s, "path-special", no_default=len(s) % 3 == 0))
+    for w in words(ALPHA, 2):
+        cases.append(path_case(b"GET /" + w + b" HTTP/1.1\r\nHost: localhost\r\n\r\n", "path-words"))
+    for _ in range(500 if quick else 20000):
+        data = path_head(rng)
+        data = data if rng.random() < 0.7 else mutate(rng, data)
+        cases.append(path_case(data, "path-random", sched=rand_sched(rng, len(data)) if rng.random() < 0.3 else (), profile=rng.choice(PROFILES),
+                               no_default=rng.random() < 0.25))
+    for _ in range(100 if quick else 3000):
+        cases.append(path_case(valid_head(rng), "path-valid", no_default=rng.random() < 0.25))
     # last: the accounting case of the live components (see extra_oracle)
     cases.append(Case("query.parse", xb(b"live=accounting"), None, {"kind": "live-accounting"}))
     return cases
@@ -806,5 +863,5 @@ THEOREMS = [
     ("kvarn_cache_control_checked_refuted",
      "CacheControl.from_kvarn_cache_control true (B \"4294967295d\") = Panic"),
     ("request_path_never_panics",
-     "forall (grow : nat -> nat -> nat -> nat) (parse_q : bytes -> option Negotiate.qclass) (checked : bool) (mode : N) (https : bool) (ops : list Hosts.op) (c : Hosts.collection) (dh : option bytes) (max_len : nat) (limit : N) (public : bytes) (cors_default_deny caching : bool) (pg : RangeConn.page) (cache : option RangeConn.page) (stream : bytes) (sched : list nat), Hosts.build ops = Ok c -> RangeConn.page_fits pg -> RangeConn.cache_ok pg cache -> request_path grow parse_q checked mode https c dh max_len limit public cors_default_deny caching pg cache stream sched <> Panic"),
+     "forall (grow : nat -> nat -> nat -> nat) (parse_q : bytes -> option Negotiate.qclass) (checked : bool) (mode : N) (https : bool) (ops : list Hosts.op) (c : Hosts.collection) (dh : option bytes) (max_len : nat) (limit : N) (lcfg : Limiter.config) (t0 : N) (lh : list Limiter.event) (addr now : N) (public : bytes) (cors_default_deny caching : bool) (pg : RangeConn.page) (cache : option RangeConn.page) (stream : bytes) (sched : list nat), Hosts.build ops = Ok c -> Limiter.fits (S (length lh)) -> RangeConn.page_fits pg -> RangeConn.cache_ok pg cache -> request_path grow parse_q checked mode https c dh max_len limit lcfg t0 lh addr now public cors_default_deny caching pg cache stream sched <> Panic"),
 ]
